@@ -135,6 +135,27 @@ func runCheck(o checkOpts) int {
 		fmt.Fprintf(os.Stderr, "load %.1fs gen %.1fs solve %.1fs queries %d\n", loadS, genS, solveS, len(all))
 	}
 
+	// the init-only discipline the proofs rely on (declared fields are stored only
+	// through objects the storing function allocated itself, i.e. before
+	// publication) is a syntactic engine check over the whole package; it belongs
+	// to every property that verifies functions of that package
+	{
+		e.stableKeys()
+		inPlay := map[string]bool{}
+		for _, r := range results {
+			if i := strings.Index(r.Func, "."); i > 0 {
+				inPlay[r.Func[:i]] = true
+			}
+		}
+		for _, ob := range e.initOnlyObls {
+			if i := strings.Index(ob.Name, "."); i > 0 && inPlay[ob.Name[:i]] {
+				c := *ob
+				c.Props = []string{o.prop}
+				e.engineObls = append(e.engineObls, &c)
+			}
+		}
+	}
+
 	// aggregate per obligation name
 	agg := map[string]*aggOb{}
 	var names []string
